@@ -19,5 +19,10 @@ claim("C08", WIRE,
       "Trusts go/types; primitive layouts (C01) and the value codec (C02) are separate obligations.",
       "DESIGN.md §3 C08")
 
-for pid in ["C01","C04","C05","C06","C09","C10","C11","C12","C13","C14","C15","C16","C17","C18","C19","C20"]:
+claim("C01", "bit-provenance abstract interpretation (GF(2)-affine bit vectors) of the byte packers + constant/table rules + wire-grammar agreement of the helper pairs",
+      "Decides, for all 2^64 values at once, that every packer/unpacker of package io is exactly the big-endian two's-complement layout of its width (byte-reversed for the Little helpers, IEEE bit patterns via Float32bits/Float64bits), that each stream method uses the packer of its own width, that WriteDecimal selects the seven nested length classes in ascending order and emits tag k + k big-endian bytes while both decimal readers map tag k to the k-byte signed reader, that blob thresholds/markers agree, that helper pairs agree, that every append is counted in Size() and that the reader's buffer is reached only through ReadBytes. These are exact equalities between computed and specification vectors / tables, not samples.",
+      "Trusts Go's integer conversion semantics as modelled by the interpreter, math.Float*bits as bit identities and bytes.Buffer. Mixed-operation programs are covered compositionally (per-operation exactness + counter + choke point), not enumerated.",
+      "DESIGN.md §3 C01")
+
+for pid in ["C04","C05","C06","C09","C10","C11","C12","C13","C14","C15","C16","C17","C18","C19","C20"]:
     na(pid, "checker not built yet in this round (planned static clauses in DESIGN.md §3); not claimed until the rule is armed and tested")
